@@ -173,6 +173,7 @@ type FE struct {
 	nopanic        bool
 	FnName         string // short display name
 	prefixes       map[string]bool
+	blockProbes    map[int]int
 	usedExt        map[string]bool // extern contracts used (trusted base)
 	usedAsm        map[string]bool
 	curPos         string
